@@ -1319,3 +1319,52 @@ def rule_S1(ctx, prog, label, rule='S1'):
                               pp(n)[:60], sorted('%s%s' % (r[0], r[1]) for r in proots), pp(own)), {}, label))
     rr.require_floor(6, 'pointer advances by a rowstride')
     return rr
+
+
+_WIDE = ('word', 'unsigned long', 'uint64_t', 'unsigned long long', 'long', 'long long', 'size_t')
+
+
+def rule_W1(ctx, prog, label, rule='W1', only_funcs=None):
+    """A left shift evaluated in 32-bit `int` (e.g. of a BIT) whose result is then widened to a 64-bit word loses
+    or sign-extends every bit at position >= 31: all word-level shifts must be performed on word operands."""
+    rr = RuleResult(rule, 'no left shift is evaluated in 32-bit int and then widened to a 64-bit word')
+    for f in sorted(prog.all_funcs(), key=lambda f: (f.file, f.line)):
+        if only_funcs is not None and f.name not in only_funcs:
+            continue
+        par = {}
+        for x in f.body.walk():
+            for c in x.kids:
+                par[c.uid] = x
+        for x in f.body.walk():
+            if not (x.kind == 'BinaryOperator' and x.op == '<<'):
+                continue
+            rr.instances += 1
+            t = (x.dtype or x.type or '')
+            if t not in ('int', 'unsigned int', 'BIT'):
+                rr.obligations += 1
+                rr.discharged += 1
+                continue
+            q = par.get(x.uid)
+            while q is not None and q.kind == 'ParenExpr':
+                q = par.get(q.uid)
+            # widening may also happen after |=, | with a word: look for the first conversion or word-typed operator
+            widened = None
+            hops = 0
+            while q is not None and hops < 6:
+                qt = (q.dtype or q.type or '')
+                if q.kind in ('ImplicitCastExpr', 'CStyleCastExpr') and qt in _WIDE:
+                    widened = q
+                    break
+                if q.kind in ('BinaryOperator', 'CompoundAssignOperator') and qt in _WIDE:
+                    widened = q
+                    break
+                if q.kind not in ('ParenExpr', 'ImplicitCastExpr', 'BinaryOperator', 'ConditionalOperator'):
+                    break
+                q = par.get(q.uid)
+                hops += 1
+            cnt = int_value(x.kids[1])
+            ok = widened is None or (cnt is not None and 0 <= cnt < 31)
+            rr.ob(ok, None, Finding(rule, '%s|%s|%s' % (rule, f.name, pp(x)[:40]), x.loc, f.name,
+                                    '`%s` is evaluated in %s and then widened to %s: target bit positions >= 31 are lost or sign-extended' % (pp(x)[:70], t, (widened.dtype or widened.type) if widened else ''), {}, label))
+    rr.require_floor(100 if only_funcs is None else 1, 'left shifts')
+    return rr
